@@ -3,6 +3,7 @@ package main
 import (
 	"fmt"
 	"go/token"
+	"go/types"
 	"strings"
 
 	"golang.org/x/tools/go/ssa"
@@ -12,7 +13,7 @@ func init() { registry["C12"] = propC12 }
 
 func propC12() *Property {
 	return &Property{
-		ID: "C12",
+		ID:          "C12",
 		Explanation: "Structural clauses of link numbering. Decided: (R1) in every markup renderer each label printed by style.Link / style.LinkBlock is the length of the link list taken immediately after its own append — no call that can append to the same list lies between the append and the evaluation of len — and every append has exactly one label; (R2) label and lookup are inverse: attachments are labelled len(bodyLinks)+i+1 for slot i and SelectLink(k) reads attachments[k-1-len(bodyLinks)] and bodyLinks[k-1] (linear forms composed to the identity); body/bodyLinks and bio/bioLinks come from the same GetMarkup call; Activity delegates rendering and selection to the same target; (R3) every index in the SelectLink implementations is provably within 0..len-1 (numbers outside 1..N open nothing); (R4) Markdown returns the link list of its HTML rendering unchanged. NOT decided: that superscripts survive wrapping at every width and that link order is width-independent (string values).",
 		Assumptions: []string{"len/append semantics of Go slices"},
 		Rules: []Rule{
@@ -57,7 +58,7 @@ func findAppends(P *Program, pkgs []string) []*appendStore {
 			}
 			as := &appendStore{fn: fn, call: call}
 			for _, r := range refs(call) {
-				if st, ok := r.(*ssa.Store); ok && st.Val == ssa.Value(call) {
+				if st, ok := r.(*ssa.Store); ok && unwrapLoad(st.Val) == ssa.Value(call) {
 					as.store = st
 					as.cell = path(st.Addr)
 				}
@@ -114,13 +115,23 @@ func c12R1(c *Ctx) {
 				}
 			}
 			if !isLen {
+				// (c) label = len(list) + 1 taken before the append of exactly one
+				// target to that list, nothing in between that can append
+				if a, why := labelBeforeAppend(P, fn, call, num, appends, mayAppend); a != nil {
+					a.labels++
+					c.ok(fname+"/label", pos, fname, "label = len(list)+1 computed right before its own single-element append")
+					return
+				} else if why != "" {
+					c.bad(fname+"/label", pos, fname, why)
+					return
+				}
 				c.bad(fname+"/label", pos, fname, "the number printed next to a link is not len(link list)")
 				return
 			}
 			list := lc.Call.Args[0]
 			// (a) len of the append result itself
 			for _, a := range appends {
-				if list == ssa.Value(a.call) {
+				if unwrapLoad(list) == ssa.Value(a.call) {
 					a.labels++
 					c.ok(fname+"/label", pos, fname, "label = len(result of its own append)")
 					return
@@ -174,6 +185,89 @@ func c12R1(c *Ctx) {
 	}
 	c.info("labels", nLabels)
 	c.info("appends", len(appends))
+}
+
+// labelBeforeAppend recognises number = len(L)+1 where L is the link list as it
+// is right before this link's own append(L, target).
+func labelBeforeAppend(P *Program, fn *ssa.Function, label *ssa.Call, num ssa.Value, appends []*appendStore, mayAppend map[*ssa.Function]bool) (*appendStore, string) {
+	bo, ok := unwrapLoad(num).(*ssa.BinOp)
+	if !ok || bo.Op != token.ADD {
+		return nil, ""
+	}
+	lenSide := bo.X
+	if k, isC := constInt(bo.Y); !isC || k != 1 {
+		if k2, isC2 := constInt(bo.X); !isC2 || k2 != 1 {
+			return nil, ""
+		}
+		lenSide = bo.Y
+	}
+	lc, ok := lenSide.(*ssa.Call)
+	if !ok {
+		return nil, ""
+	}
+	if b, ok := lc.Call.Value.(*ssa.Builtin); !ok || b.Name() != "len" {
+		return nil, ""
+	}
+	oneElement := func(a *appendStore) bool {
+		if sl, ok := a.call.Call.Args[1].(*ssa.Slice); ok {
+			if al, ok := sl.X.(*ssa.Alloc); ok {
+				if arr, ok := deref(al.Type()).Underlying().(*types.Array); ok && arr.Len() == 1 {
+					return true
+				}
+			}
+		}
+		return false
+	}
+	u, ok := lc.Call.Args[0].(*ssa.UnOp)
+	if !ok || u.Op != token.MUL {
+		// the list is an SSA value (a local that is never captured): the append
+		// must extend this very value
+		for _, a := range appends {
+			if a.fn == fn && unwrapLoad(a.call.Call.Args[0]) == unwrapLoad(lc.Call.Args[0]) && dominatesInstr(label, a.call) {
+				if !oneElement(a) {
+					return nil, "the append that follows the label does not add exactly one target"
+				}
+				return a, ""
+			}
+		}
+		return nil, ""
+	}
+	cell := path(u.X)
+	for _, a := range appends {
+		if a.fn != fn || a.store == nil || a.cell != cell || !dominatesInstr(u, a.call) || !dominatesInstr(label, a.call) {
+			continue
+		}
+		// the append extends the same list state by exactly one element
+		base, ok := a.call.Call.Args[0].(*ssa.UnOp)
+		if !ok || base.Op != token.MUL || path(base.X) != cell {
+			continue
+		}
+		one := false
+		if sl, ok := a.call.Call.Args[1].(*ssa.Slice); ok {
+			if al, ok := sl.X.(*ssa.Alloc); ok {
+				if arr, ok := deref(al.Type()).Underlying().(*types.Array); ok && arr.Len() == 1 {
+					one = true
+				}
+			}
+		}
+		if !one {
+			return nil, "the append that follows the label does not add exactly one target"
+		}
+		for _, mid := range instrsBetween(u, a.call) {
+			if ci, ok := mid.(ssa.CallInstruction); ok {
+				for _, callee := range P.Callees(ci) {
+					if mayAppend[callee] {
+						return nil, "the label is len(list)+1 but " + describeInstr(P, mid) + " can append further targets before this link's own append"
+					}
+				}
+			}
+			if st, ok := mid.(*ssa.Store); ok && path(st.Addr) == cell {
+				return nil, "the link list is assigned between the label's len(list)+1 and the append"
+			}
+		}
+		return a, ""
+	}
+	return nil, ""
 }
 
 func describeInstr(P *Program, in ssa.Instruction) string {
@@ -335,7 +429,7 @@ func c12R2(c *Ctx) {
 	okDel := false
 	eachInstr(act, func(_ *ssa.BasicBlock, _ int, in ssa.Instruction) {
 		call, ok := in.(*ssa.Call)
-		if ok && call.Call.IsInvoke() && call.Call.Method.Name() == "SelectLink" && strings.HasSuffix(path(call.Call.Value), ".&target.*") && call.Call.Args[0] == ssa.Value(act.Params[1]) {
+		if ok && call.Call.IsInvoke() && call.Call.Method.Name() == "SelectLink" && strings.HasSuffix(path(call.Call.Value), ".&target.*") && unwrapLoad(call.Call.Args[0]) == ssa.Value(act.Params[1]) {
 			okDel = true
 		}
 	})
